@@ -22,11 +22,29 @@ PROP = 'C15'
 
 # ---------------------------------------------------------------- real code drivers
 
-def drive(op_factory, chunks):
+_OPS = {}
+_USE = [0]
+
+
+def _cached(key, make):
+    """operators are factories: two executions out of three re-subscribe an operator object
+    that already served earlier streams"""
+    _USE[0] += 1
+    if _USE[0] % 3 == 0:
+        return make()
+    if key not in _OPS:
+        _OPS[key] = make()
+    return _OPS[key]
+
+
+def drive(op_factory, chunks, key=None):
     """Push `chunks` one at a time through the real operator; return per-chunk outputs,
     completion outputs and how the stream ended."""
     from rx.subject import Subject
     subj = Subject()
+    if key is not None:
+        op = _cached(key, op_factory)
+        op_factory = lambda: op
     cur = []
     state = {'ended': 'open'}
 
@@ -79,7 +97,7 @@ def line_trace(items, tail, sizes):
     import rxsci.framing.line as line
     framed = frame_all(line.frame, items)
     wire = ''.join(framed) + tail
-    outs, final, ended = drive(line.unframe, cut(wire, sizes))
+    outs, final, ended = drive(line.unframe, cut(wire, sizes), key=('line', id(line)))
     enc = lambda s: [ord(ch) for ch in s]
     return {'items': [enc(i) for i in items], 'tail': enc(tail), 'wire': enc(wire),
             'chunks': [enc(c) for c in cut(wire, sizes)],
@@ -94,7 +112,7 @@ def lp_trace(items, cutoff, sizes, p, order):
         framed[-1] = framed[-1][:cutoff]
     wire = b''.join(framed)
     outs, final, ended = drive(lambda: lp.unframe(prefix_size=p, byteorder=order),
-                               cut(wire, sizes))
+                               cut(wire, sizes), key=('lp', p, order, id(lp)))
     return {'items': [list(i) for i in items], 'cutoff': cutoff, 'wire': list(wire),
             'chunks': [list(c) for c in cut(wire, sizes)],
             'outs': [[list(x) for x in o] for o in outs], 'final': [list(x) for x in final],
